@@ -1232,6 +1232,110 @@ def render_partial(src: str, parts: dict[str, str], data: dict[str, Any], pol: s
     return _probe_outcome(o) if pol == "P" else o
 
 
+def render_env(src: str, parts: dict[str, str], data: dict[str, Any], pol: str, asynchronous: bool = False) -> tuple[str, str]:
+    """Render with the Shopify-compatible environment (adds tablerow) and a DictLoader."""
+    from liquid2 import DictLoader
+    from liquid2.shopify.environment import Environment as ShopifyEnvironment
+    import asyncio
+    del _TOUCHED[:]
+    try:
+        env = ShopifyEnvironment(undefined=_classes()[pol], loader=DictLoader(parts))
+        t = env.from_string(src)
+        if asynchronous:
+            if not _LOOP:
+                _LOOP.append(asyncio.new_event_loop())
+            o = ("ok", _LOOP[0].run_until_complete(t.render_async(**data)))
+        else:
+            o = ("ok", t.render(**data))
+    except Exception as e:  # noqa: BLE001
+        o = outcome_of_exception(e)
+    return _probe_outcome(o) if pol == "P" else o
+
+
+def beyond_directed() -> list[tuple[str, dict[str, str], dict[str, Any], bool, str | None]]:
+    """Outside the modelled fragment, never sampled: (source, partials, data,
+    every reference resolves, equivalent source without the boundary | None).
+
+    (a) tags that convert an argument to a number with a 'not a number ->
+        default' fallback - translate count, for limit / offset, tablerow
+        cols / limit / offset, cycle - and translate message variables, with
+        the argument present (several types), nil, and MISSING: a strict
+        render either raises or prints exactly what the default policy prints;
+    (b) context-aware (lambda) filters across an isolation boundary: the same
+        filter name used in the outer template and inside a render / include /
+        macro whose arrow function reads a render / call ARGUMENT: with all
+        data present no policy raises and the result equals the same body
+        evaluated without the boundary."""
+    out: list[tuple[str, dict[str, str], dict[str, Any], bool, str | None]] = []
+    base = {"l": [1, 2, 3, 4], "n": 2, "s": "ab", "who": "W",
+            "ld": [{"a": 1, "c": "x"}, {"a": 2, "c": "y"}, {"a": 1, "c": "z"}], "d": {"k": 2}}
+    # (a)
+    conv = [
+        "{% translate count: @X@ %}one{% plural %}many{% endtranslate %}",
+        "{% translate count: @X@, w: who %}one {{ w }}{% plural %}many {{ w }} {{ count }}{% endtranslate %}",
+        "{% translate w: @X@ %}hello {{ w }}{% endtranslate %}",
+        "{% translate w: @X@, count: n %}one {{ w }}{% plural %}many {{ w }}{% endtranslate %}",
+        "{% translate context: @X@ %}hello{% endtranslate %}",
+        "{{ 'hello %(w)s' | t: w: @X@ }}", "{{ 'one' | ngettext: 'many', @X@ }}", "{{ 'one' | t: plural: 'many', count: @X@ }}",
+        "{% for i in l limit: @X@ %}{{ i }}{% else %}E{% endfor %}",
+        "{% for i in l offset: @X@ %}{{ i }}{% else %}E{% endfor %}",
+        "{% for i in l limit: @X@ offset: n %}{{ i }}{% else %}E{% endfor %}",
+        "{% for i in l reversed limit: @X@ %}{{ i }}{% else %}E{% endfor %}",
+        "{% for i in (1..@X@) %}{{ i }}{% else %}E{% endfor %}", "{% for i in (@X@..3) %}{{ i }}{% else %}E{% endfor %}",
+        "{{ (1..@X@) | size }}",
+        "{% tablerow i in l cols: @X@ %}{{ i }}{% endtablerow %}",
+        "{% tablerow i in l limit: @X@ %}{{ i }}{% endtablerow %}",
+        "{% tablerow i in l offset: @X@ %}{{ i }}{% endtablerow %}",
+        "{% tablerow i in l cols: n limit: @X@ %}{{ i }}{% endtablerow %}",
+        "{% cycle @X@: 'a', 'b' %}{% cycle @X@: 'a', 'b' %}", "{% cycle @X@, 'b' %}{% cycle @X@, 'b' %}{% cycle @X@, 'b' %}",
+        "{% cycle 'a', @X@ %}{% cycle 'a', @X@ %}",
+        "{% increment @X@ %}{% increment @X@ %}", "{% decrement @X@ %}",
+        "{{ s | truncate: @X@ }}", "{{ s | truncatewords: @X@ }}", "{{ l | slice: @X@ }}", "{{ l | slice: 0, @X@ }}",
+        "{{ n | round: @X@ }}", "{{ n | at_least: @X@ }}", "{{ n | at_most: @X@ }}", "{{ n | divided_by: @X@ }}", "{{ n | modulo: @X@ }}",
+        "{{ l | json: @X@ }}", "{{ n | decimal: @X@ }}",
+    ]
+    for src in conv:
+        for name, val in (("present", 2), ("present", "2"), ("present", 0), ("present", "abc"), ("present", None),
+                          ("present", True), ("present", -1), ("missing", None)):
+            data = dict(base)
+            if name == "present":
+                data["x"] = val
+            out.append((src.replace("@X@", "x"), {}, data, name == "present", None))
+        out.append((src.replace("@X@", "d.zz"), {}, dict(base), False, None))
+    # (b)
+    body_p = "{{ items | where: i => i.a == k | map: i => i.c | join: ',' }}|{{ items | find: i => i.a == k | json }}|{{ items | has: i => i.a == k }}"
+    body_q = "{{ items | reject: i => i.a == k | size }}|{{ items | find_index: i => i.a == k }}|{{ items | sum: i => i.a }}|{{ items | sort: i => i.c | first | json }}"
+    body_r = "{% for it in items %}{{ items | where: i => i.a == it.a | size }}{% endfor %}|{{ items | uniq: i => i.a | size }}|{{ items | compact: i => i.c | size }}"
+    parts = {"p": body_p, "q": body_q, "r": body_r,
+             "nest": "{{ items | map: i => i.a | join: '' }}{% render 'p', items: items, k: k %}"}
+    outer_uses = ["", "{{ ld | where: i => i.a == n | size }}", "{{ ld | map: i => i.c | join: '' }}",
+                  "{{ ld | find: i => i.a == n | json }}{{ ld | has: i => i.a == n }}{{ ld | reject: i => i.a == n | size }}"
+                  "{{ ld | find_index: i => i.a == n }}{{ ld | sum: i => i.a }}{{ ld | sort: i => i.c | size }}{{ ld | uniq: i => i.a | size }}"
+                  "{{ ld | compact: i => i.c | size }}"]
+    for name, body in (("p", body_p), ("q", body_q), ("r", body_r)):
+        equiv = "{% assign k = 1 %}{% assign items = ld %}" + body
+        for outer in outer_uses:
+            for call in ("{% render '" + name + "', k: 1, items: ld %}", "{% include '" + name + "', k: 1, items: ld %}",
+                         "{% render '" + name + "', items: ld, k: 1 %}",
+                         "{% macro f, items, k %}" + body + "{% endmacro %}{% call f, ld, 1 %}",
+                         "{% macro f, items, k %}" + body + "{% endmacro %}{% call f, k: 1, items: ld %}",
+                         "{% with k: 1, items: ld %}" + body + "{% endwith %}"):
+                out.append((outer + call, parts, dict(base), True, outer + equiv))
+                out.append((call + outer, parts, dict(base), True, equiv + outer))
+                out.append((outer + call + call, parts, dict(base), True, outer + equiv + equiv))
+    out.append(("{{ ld | map: i => i.a | join: '' }}{% render 'nest', items: ld, k: 1 %}", parts, dict(base), True,
+                "{{ ld | map: i => i.a | join: '' }}{% assign k = 1 %}{% assign items = ld %}{{ items | map: i => i.a | join: '' }}" + body_p))
+    out.append(("{% for x in l %}{% render 'p', items: ld, k: x %};{% endfor %}", parts, dict(base), True,
+                "{% assign items = ld %}{% for k in l %}" + body_p + ";{% endfor %}"))
+    out.append(("{% render 'p' for l as k, items: ld %}", parts, dict(base), True, None))
+    out.append(("{% render 'p' with n as k, items: ld %}", parts, dict(base), True, "{% assign k = n %}{% assign items = ld %}" + body_p))
+    # an argument that IS missing is seen as missing inside the boundary, under every name
+    out.append(("{{ ld | where: i => i.a == n | size }}{% render 'p', items: ld %}", parts, dict(base), False, None))
+    out.append(("{{ ld | where: i => i.a == n | size }}{% render 'p', k: 1 %}", parts, dict(base), False, None))
+    out.append(("{% assign k = 1 %}{% assign items = ld %}{% render 'p' %}", parts, dict(base), False, None))
+    return out
+
+
 # ---------------------------------------------------------------- main
 
 _orig_coqc_cases = C._coqc_cases
@@ -1390,7 +1494,7 @@ def main(chk: C.Check, build: C.Build) -> None:
     # 3. oracle beyond the model
     nbeyond = 0
     for src, data, complete in all_filter_sources():
-        if not thorough and r.random() > 0.22:
+        if not thorough and r.random() > 0.12:
             continue
         for ae in (False, True):
             outs = {pol: render_impl(src, data, pol, ae) for pol in POLS}
@@ -1400,6 +1504,29 @@ def main(chk: C.Check, build: C.Build) -> None:
         outs = {pol: render_partial(src, parts, data, pol) for pol in POLS}
         oracle(chk, src, {"data": data, "partials": parts}, outs, complete=complete)
         nbeyond += 1
+    # directed sources beyond the model, never sampled, sync and async
+    nbd = 0
+    for src, parts, data, complete, equiv in beyond_directed():
+        both = []
+        for asy in (False, True):
+            outs = {pol: render_env(src, parts, data, pol, asy) for pol in POLS}
+            both.append(outs)
+            oracle(chk, src, {"data": data, "partials": parts, "async": asy}, outs, complete=complete)
+            nbeyond += 1
+            nbd += 1
+            if equiv is not None:
+                for pol in POLS:
+                    o2 = render_env(equiv, parts, data, pol, asy)
+                    if o2 != outs[pol]:
+                        nm = {"D": "Undefined", "S": "StrictUndefined", "F": "FalsyStrictUndefined", "P": "probe"}[pol]
+                        chk.finding(f"boundary-changes-result:{nm}",
+                                    f"{'render_async' if asy else 'render'} under {nm}: {outs[pol]!r} across the render/include/call boundary, "
+                                    f"{o2!r} for the same body without it: {src!r}",
+                                    {"source": src, "equivalent": equiv, "partials": parts, "data": data, "policy": nm,
+                                     "async": asy, "with_boundary": outs[pol], "without": o2})
+        if both[0] != both[1]:
+            chk.finding("sync-async-differ", f"render and render_async differ: {both[0]!r} vs {both[1]!r}: {src!r}",
+                        {"source": src, "partials": parts, "data": data, "sync": both[0], "async": both[1]})
     outs = {pol: render_impl(REPR_WITNESS[0], REPR_WITNESS[1], pol) for pol in POLS}
     oracle(chk, REPR_WITNESS[0], REPR_WITNESS[1], outs, complete=False)
 
@@ -1437,6 +1564,7 @@ def main(chk: C.Check, build: C.Build) -> None:
         "roots_cases": len(ritems),
         "lazy_site_programs": len(lazy),
         "directed_programs": len(directed),
+        "directed_sources_beyond_model": nbd,
         "lazy_deletion_comparisons": nlazy,
         "oracle_only_sources": nbeyond,
         "exhaustive": False,
